@@ -32,7 +32,7 @@ func init() {
 		Level: "exploration",
 		Rule: "full product {install, upgrade, rollback, uninstall, template} x dry-run spelling (install/upgrade: DryRun | dry-run=client | server | true; rollback/uninstall: DryRun; " +
 			"template: ClientOnly yes/no x DryRun + dry-run in {unset,true,client,server,none,false}) x every subset of the operation's boolean flags (2^11 install/upgrade/template, 2^6 rollback, 2^3 uninstall) " +
-			"x 8 charts x 6 pre-existing histories (built by real operations, failed/pending by an injected reject / process death) x storage driver; thorough = full product with the driver assigned per (chart, history) by a Latin pattern (rollback/uninstall: all 3 drivers), " +
+			"x 11 charts (incl. hooks-only = empty manifest, renders-nothing, unknown kind = Build fails) x 6 pre-existing histories (built by real operations, failed/pending by an injected reject / process death) x storage driver; thorough = full product with the driver assigned per (chart, history) by a Latin pattern (rollback/uninstall: all 3 drivers), " +
 			"quick = full flag-subset product on a covering array (verified at run time: all value pairs of (operation+spelling, chart, history, driver) and all (operation, chart, history) triples); every case runs the real action on a clone of the world. " +
 			"distinct = case tuples whose operation reached the point where a non-dry run would start writing (returned without error)",
 		Run:    run,
@@ -54,6 +54,8 @@ var requiredFloors = []string{
 	"template-client-only-ok-empty-log", "template-server-lookup-read-ok", "cluster-dryrun-issued-reads", "hooks-rendered", "crds-included",
 	"secret-hidden", "postrenderer-invoked", "subchart-rendered", "notes-rendered",
 	"err:pending", "err:no-deployed", "err:not-found",
+	"hooks-only-dryrun-ok-empty-manifest", "renders-nothing-dryrun-ok", "unknown-kind-build-rejected:install", "unknown-kind-build-rejected:template", "unknown-kind-build-rejected:upgrade",
+	"empty-manifest-revision-in-history",
 	"control-wrote:install", "control-wrote:upgrade", "control-wrote:rollback", "control-wrote:uninstall", "control-wrote:record", "control-wrote:store",
 	"control-cluster-write:install", "control-cluster-write:upgrade", "control-cluster-write:rollback", "control-cluster-write:uninstall",
 	"hist:deployed", "hist:deployed+failed", "hist:pending-upgrade", "hist:uninstalled-kept", "hist:superseded+deployed",
@@ -150,6 +152,23 @@ type chartDef struct {
 	Name   string
 	V1, V2 *hx.ChartSpec
 	PR     bool
+	// HistUp / HistFail: the charts of the successful / faulted upgrade that
+	// build the histories (nil = V2).
+	HistUp, HistFail *hx.ChartSpec
+}
+
+func (cd *chartDef) histUp() *hx.ChartSpec {
+	if cd.HistUp != nil {
+		return cd.HistUp
+	}
+	return cd.V2
+}
+
+func (cd *chartDef) histFail() *hx.ChartSpec {
+	if cd.HistFail != nil {
+		return cd.HistFail
+	}
+	return cd.V2
 }
 
 var allHooks = []hx.HookSpec{
@@ -159,6 +178,10 @@ var allHooks = []hx.HookSpec{
 }
 
 const lookupTpl = "apiVersion: v1\nkind: ConfigMap\nmetadata:\n  name: lk\ndata:\n  found: {{ (lookup \"v1\" \"ConfigMap\" \"default\" \"a\") | len | quote }}\n"
+
+const nothingTpl = "{{- if .Values.never }}\napiVersion: v1\nkind: ConfigMap\nmetadata:\n  name: never\n{{- end }}\n"
+
+const unknownKindTpl = "apiVersion: nope.example.verif/v1\nkind: Nope\nmetadata:\n  name: nope\nspec:\n  x: 1\n"
 
 func mkChart(version string, variant int, mod func(*hx.ChartSpec)) *hx.ChartSpec {
 	c := &hx.ChartSpec{Name: "c", Version: version, Resources: []hx.ResSpec{
@@ -185,6 +208,20 @@ var charts = []chartDef{
 	mkDef("subchart", false, withSub),
 	mkDef("postrender", true, nil),
 	mkDef("lookup", false, func(c *hx.ChartSpec) { c.Extra = map[string]string{"templates/lookup.yaml": lookupTpl} }),
+	// hooks-only: every template is a hook (plus NOTES.txt), so the rendered
+	// manifest is EMPTY; the history is built from the same shape.
+	{Name: "hooks-only",
+		V1: &hx.ChartSpec{Name: "c", Version: "1", Hooks: allHooks, Notes: "notes of {{ .Release.Name }}\n"},
+		V2: &hx.ChartSpec{Name: "c", Version: "2", Hooks: allHooks, Notes: "notes of {{ .Release.Name }} v2\n"}},
+	// renders-nothing: the only template renders to the empty string; the
+	// history starts from the plain chart, so revisions with an empty manifest
+	// appear through the real upgrade (superseded+deployed).
+	{Name: "renders-nothing", V1: mkChart("1", 1, nil), HistFail: mkChart("2", 2, nil),
+		V2: &hx.ChartSpec{Name: "c", Version: "2", Extra: map[string]string{"templates/none.yaml": nothingTpl}}},
+	// unknown-kind: renders an object of a kind the cluster does not know, so
+	// KubeClient.Build fails; the history holds the plain chart.
+	{Name: "unknown-kind", V1: mkChart("1", 1, nil), HistUp: mkChart("2", 2, nil), HistFail: mkChart("2", 2, nil),
+		V2: &hx.ChartSpec{Name: "c", Version: "2", Resources: []hx.ResSpec{{Kind: "ConfigMap", Name: "a", Variant: 2}}, Extra: map[string]string{"templates/nope.yaml": unknownKindTpl}}},
 	mkDef("all", true, func(c *hx.ChartSpec) {
 		c.Hooks = allHooks
 		c.CRDs = true
@@ -354,9 +391,9 @@ func buildWorld(driver, chart, history string) (*base, error) {
 		switch history {
 		case "empty", "deployed":
 		case "superseded+deployed":
-			err = must(hx.Op{Kind: "upgrade", Chart: cd.V2}, nil, false)
+			err = must(hx.Op{Kind: "upgrade", Chart: cd.histUp()}, nil, false)
 		case "deployed+failed", "pending-upgrade":
-			up := hx.Op{Kind: "upgrade", Chart: cd.V2}
+			up := hx.Op{Kind: "upgrade", Chart: cd.histFail()}
 			var call *sim.Call
 			if call, err = firstMutating(up); err == nil {
 				kind := "reject"
@@ -761,6 +798,11 @@ func rows(thorough bool) ([]row, string) {
 		}
 		for ci, ch := range charts {
 			out = append(out, row{o.k, o.sp, ch.Name, histories[(big+ci)%nh].Name, hx.Drivers[(big+2*ci)%nd]})
+			if o.sp.ClientOnly {
+				// client-only rendering swaps in a printing client and a private
+				// store before it looks at history or driver: one row suffices
+				continue
+			}
 			out = append(out, row{o.k, o.sp, ch.Name, histories[(big+ci+nh/2)%nh].Name, hx.Drivers[(big+2*ci+1)%nd]})
 		}
 		big++
@@ -958,7 +1000,21 @@ func floors(c *core.Ctx, cs Case, sp spelling, o *outcome) {
 	res := o.res
 	if res.Failed {
 		c.Floor("err:" + res.ErrClass())
+		if cs.Chart == "unknown-kind" && strings.Contains(res.Err, "no matches for kind") {
+			c.Floor("unknown-kind-build-rejected:" + cs.Kind)
+		}
 		return
+	}
+	if res.Release != nil && strings.TrimSpace(res.Release.Manifest) == "" && (cs.Kind == "install" || cs.Kind == "upgrade" || cs.Kind == "template") {
+		if cs.Chart == "hooks-only" && len(res.Release.Hooks) >= 3 {
+			c.Floor("hooks-only-dryrun-ok-empty-manifest")
+		}
+		if cs.Chart == "renders-nothing" {
+			c.Floor("renders-nothing-dryrun-ok")
+		}
+	}
+	if (cs.Kind == "rollback" || cs.Kind == "uninstall") && (cs.Chart == "hooks-only" || cs.Chart == "renders-nothing" && cs.History == "superseded+deployed") {
+		c.Floor("empty-manifest-revision-in-history")
 	}
 	man := ""
 	if res.Release != nil {
